@@ -1,6 +1,8 @@
 /* Building blocks shared by the connection scenarios. */
+#define _GNU_SOURCE
 #include "gmsim.h"
 #include <stdarg.h>
+#include <time.h>
 
 void rr_violation(RunResult *r, const char *vclass, const char *fmt, ...)
 {
@@ -47,6 +49,7 @@ void gen_common(Plan *p, Rng *g, int tier)
 	p->skew_c = (int64_t)rng_below(g, 201) - 100;
 	p->skew_s = (int64_t)rng_below(g, 201) - 100;
 	p->closer = rng_below(g, 2);
+	p->tz = rng_chance(g, 1, 2) ? 0 : (int64_t)rng_below(g, 5);
 }
 
 static int64_t draw_size(Rng *g, int64_t max_bytes)
@@ -97,11 +100,27 @@ void gen_rounds(Plan *p, Rng *g, int tier, int max_rounds, int64_t max_bytes)
 			if (n / b > 150) b = n / 150 + 1;
 			r->rbuf_max[d] = b;
 		}
+		/* TLS 1.3 only (tls_send of TLCP/TLS 1.2 documents "drain before send"): the reader writes
+		 * acknowledgements back while a record may still be partly buffered */
+		if (p->proto == P_TLS13 && !p->capacity && r->mode != RM_DUPLEX && rng_chance(g, 1, 3)) {
+			int d = r->mode;
+			r->mode = d == DIR_C2S ? RM_C2S_ACKED : RM_S2C_ACKED;
+			r->ack_every = (int64_t[]){ 1, 7, 100, 1000, 5000 }[rng_below(g, 5)];
+			if (r->n[d] / r->ack_every > 40) r->ack_every = r->n[d] / 40 + 1;
+			r->ack_size = (int64_t[]){ 1, 16, 300, 2000 }[rng_below(g, 4)];
+			r->rbuf_max[1 - d] = 4096;
+			r->n[1 - d] = 0;
+		}
 	}
 }
 
 void sim_apply_plan(const Plan *p)
 {
+	/* the process environment a deployment may have: local time zone (POSIX TZ strings, no tzdata needed) */
+	static const char *tzs[] = { NULL, "UTC", "CST-8", "PST8", "<+0530>-5:30" };
+	const char *tz = tzs[(p->tz >= 0 && p->tz < 5) ? p->tz : 0];
+	if (tz) setenv("TZ", tz, 1); else unsetenv("TZ");
+	tzset();
 	sim_reset((uint64_t)p->sched_seed);
 	g_sim.stay_num = (uint32_t)p->stay_num;
 	g_sim.stay_den = (uint32_t)(p->stay_den ? p->stay_den : 1);
@@ -119,6 +138,7 @@ void sim_apply_plan(const Plan *p)
 		Node *n = &g_sim.nodes[p->efail_node];
 		n->efail_at = p->efail_at;
 		n->efail_rest = (int)p->efail_rest;
+		n->efail_errno = (int)p->efail_errno;
 		n->eburst_at = p->eburst_at;
 		n->eburst_k = (int)p->eburst_k;
 		n->eburst_val = (uint8_t)p->eburst_val;
